@@ -237,13 +237,13 @@ func init() {
 // expectedProbes: rare conditions each check is meant to reach; one that stays at zero in a run is
 // listed in the evidence under reach_probes_at_zero (a reason to change the workload, not a failure).
 var expectedProbes = map[string][]string{
-	"C01": {"interleaved-step", "sharing-cotenant-dropped-port", "pool-renamed", "modeA-release-probe", "counters-checked"},
-	"C02": {"assignment-event", "modeA-fresh-automatic-allocation", "pool-renamed", "prefer-dual-completion"},
+	"C01": {"interleaved-step", "sharing-cotenant-dropped-port", "pool-renamed"},
+	"C02": {"assignment-event", "modeA-fresh-automatic-allocation", "pool-renamed", "prefer-dual-completion", "recorded-address-adopted"},
 	"C03": {"status-stability-checked", "frame-checked", "forced-resync", "pool-renamed"},
-	"C06": {"recorded-address-checked-after-restart", "recorded-address-adopted", "event-dropped-before-initial-load", "releasing-write-failed"},
+	"C06": {"recorded-address-checked-after-restart", "event-dropped-before-initial-load", "releasing-write-failed"},
 	"C07": {"pending-service-at-quiescence", "sharing-cotenant-dropped-port", "releasing-write-failed"},
 	"C11": {"counters-checked", "rebuild-compared", "modeA-release-probe", "pool-renamed"},
-	"C04": {"quiescence-checked", "node-first-sight", "sharers-with-different-eligible-sets"},
+	"C04": {"quiescence-checked", "node-first-sight"},
 	"C05": {"bgp-routes-expected-on-a-session", "bgp-several-routes-on-a-session", "bgp-peer-not-selecting-the-node", "service-reported-as-advertised-to-peers"},
 	"C09": {"fresh-speaker-compared", "quiescence-checked"},
 	"C10": {"bgp-eligible-node-service-pair", "bgp-eligible-under-local-policy", "bgp-ineligible-node-service-pair-with-address"},
